@@ -522,7 +522,7 @@ impl From<u128> for Natural {
         }
         let leading = value.leading_zeros();
         let shl = value.trailing_zeros();
-        if leading - shl <= u64::BITS {
+        if leading + shl >= u64::BITS {
             Self::from_mantissa_single_with_shl((value >> shl) as u64, shl as u64)
         } else {
             let value = value >> shl;
